@@ -127,6 +127,15 @@ def check_vector(v):
             return [[int(x) for x in np.asarray(r.to_array() if hasattr(r, "to_array") else r).tolist()] for r in bnp.compute(lazy[intervals])]
         cmp("streamed track[intervals]", v["under"], lambda: streamed(giu))
         cmp("streamed track[stranded intervals]", v["understr"], lambda: streamed(gi))
+    # every base of the genome as a location, mapped into the intervals that hold it (MC_C10!MapLoc); the intervals in genome order
+    # (searching sorted positions is the documented way map_locations works)
+    if all((a["c"], a["s"]) <= (b["c"], b["s"]) for a, b in zip(es, es[1:])) and all(a["e"] <= b["s"] or a["c"] != b["c"] for a, b in zip(es, es[1:])):
+        def maploc():
+            alln = [names[c] for c, size in enumerate(G) for _ in range(size)]
+            allp = np.array([p for c, size in enumerate(G) for p in range(size)], dtype=int)
+            r = giu.map_locations(LocationEntry(alln, allp))
+            return [[int(str(x)[1:]) + 1, int(p)] for x, p in zip(r.chromosome.tolist(), r.position.tolist())]       # the intervals are named x0, x1, ...
+        cmp("map_locations", [list(x) for x in v["maploc"]], maploc)
     # the same entries and the same track read from FILES through the genome (read_intervals / read_track), in memory and as streams
     bed = os.path.join(v["_dir"], "e_%d.bed" % os.getpid())
     bdg = os.path.join(v["_dir"], "t_%d.bdg" % os.getpid())
@@ -227,7 +236,7 @@ def run(ctx):
     vectors = []
     for gname, me in plans:
         res = ctx.tlc("MC_C10", tag="MC_C10_" + gname, spec="Spec", constants={"G": "<- " + gname, "MaxEntries": me, "Over": 1},
-                      invariants=["BijectionOK", "MergedInside", "Emit"], properties=["NoNeighbourEffect"], coverage=True)
+                      invariants=["BijectionOK", "MergedInside", "MapLocInside", "Emit"], properties=["NoNeighbourEffect"], coverage=True)
         ctx.require_actions(res, "MC_C10", ["Add"])
         vectors += res.vectors
     for v in vectors:
